@@ -83,7 +83,8 @@ fn respell_word(r: &mut Rng, w: &str) -> String {
         for (i, c) in cs.iter().enumerate() { if *c == 'ː' && i > 0 && "aeiouəɛɔyɯæptkbdɡmnŋszfvxhlrjwqθɲʃ".contains(cs[i - 1]) && (i < 2 || !"\u{0361}\u{035C}ᵐⁿᵑ".contains(cs[i - 2])) && !is_mark(cs[i - 1]) { o.push(cs[i - 1]) } else { o.push(*c) } }
         s = o;
     }
-    if r.chance(1, 2) { s = s.replace('\u{0361}', "^") }
+    // the tie bar may be written above or below (`◌͡◌` or `◌͜◌`), or as a caret
+    if r.chance(1, 2) { s = s.replace('\u{0361}', "^") } else if r.chance(1, 2) { s = s.replace('\u{0361}', "\u{035C}") }
     for (a, b) in [('ɡ', 'g'), ('ʔ', '?'), ('ǃ', '!'), ('ɸ', 'φ'), ('ʃ', 'S'), ('ʒ', 'Z'), ('ɕ', 'C'), ('ɢ', 'G'), ('ɴ', 'N'), ('ʙ', 'B'), ('ʀ', 'R'), ('χ', 'X'), ('ʜ', 'H'), ('ɐ', 'A'), ('ɛ', 'E'), ('ɪ', 'I'), ('ɔ', 'O'), ('ʊ', 'U'), ('ʏ', 'Y'), ('ə', 'ǝ')] {
         if r.chance(1, 2) { s = s.replace(a, &b.to_string()) }
     }
@@ -102,7 +103,8 @@ pub fn explore(ctx: &Ctx, shard: usize, n: usize) -> Report {
     let p2 = drive::cases(ctx, shard, n, RULE, 0x13, 40_000, 10_000_000, |r, rep, _| {
         let ast = rand_rule(r, &RuleCfg::default());
         let sp = Spelling { arrow: r.below(3) as u8, dslash: r.chance(1, 2), empty_set: r.chance(1, 2), ellipsis: r.below(3) as u8, ascii_angle: r.chance(1, 2), matrix_spaces: r.chance(1, 3), greek: r.chance(1, 2), feat_variant: r.next() as u32, comment: if r.chance(1, 3) { Some("a comment > / | _".to_string()) } else { None }, var_shift: r.below(3) as u8 * 3, alpha_shift: r.below(4) as u8 };
-        let (a, b) = (plain(&ast), sp.rule(&ast));
+        let (a, mut b) = (plain(&ast), sp.rule(&ast));
+        if r.chance(1, 4) { b = b.replace('\u{0361}', "\u{035C}") }   // under-tie for over-tie
         let ws: Vec<String> = (0..4).map(|_| rand_word(r, &WordCfg::default())).collect();
         if a == b { return }
         if rep.samples.len() < 5 { let (a2, b2) = (a.clone(), b.clone()); rep.sample(|| json!({"plain": a2, "respelled": b2})); }
